@@ -8,7 +8,10 @@ TV   (a) the same kind of (signed, actual) pairs at unit scale (1 unit = 32 KiB)
      file + fail-fast): verdict on the real wounds, drift against the model's wounds. (b) generated builds with
      damage sequences (flips at block edges, truncation incl. exactly at block boundaries, extension within / across
      / beyond blocks, emptied, deleted, content where an empty file is expected, kind swaps, retargeted symlinks,
-     combinations, damage only in the last file); ground truth by comparison with the signed build.
+     combinations, damage only in the last file, runs of > 64 consecutive damaged blocks in a file larger than the
+     aggregator's 4 MiB limit); ground truth by comparison with the signed build.
+RP   every sequence of per-block wounds of up to 6 (thorough: 8) blocks x every aggregate limit through the REAL
+     AggregateWounds: every input wound covered, markers relayed in order; drift against FileWounds.tla's Agg.
 """
 import os
 import shutil
@@ -71,6 +74,24 @@ def run(tier):
         run.coverage["spec_drift"] = ndrift
         vlib.log("[tv] %d (signed, actual) pairs through the real validator, drift %d" % (upairs, ndrift))
 
+        # (a') the aggregator alone, model -> code: every wound sequence of up to N blocks x every aggregate limit
+        tp = os.path.join(d, "agg.ndjson")
+        vlib.run_driver(binary, ["c05-agg", "-blocks", 6 if tier == "quick" else 8, "-out", tp], timeout=900)
+        nagg = vlib.count_lines(tp)
+        res = vlib.run_tlc("Trace_Agg", "Trace_Agg.cfg", data={"trace.ndjson": tp}, workers=4, timeout=1800, heap="8g")
+        if res.error or not res.ok or res.distinct < nagg:
+            raise vlib.Inconclusive("Trace_Agg failed: %s\n%s" % (res.error or res.violated, res.out[-2000:]))
+        adrift = vlib.parse_tagged(res.prints, "DRIFT")
+        if adrift:
+            run.note("spec drift: the real AggregateWounds relays other wounds than FileWounds.tla's Agg on %d of %d sequences, e.g. %s" % (len(adrift), nagg, vlib.get_line(tp, adrift[0][0])))
+        for ln, clauses in vlib.parse_viol(res.prints)[:5]:
+            c = vlib.get_line(tp, ln)
+            run.violation({"clauses": clauses, "scale": "aggregator"}, c,
+                          "real AggregateWounds (limit %d) violates %s: in %s -> out %s" % (c["maxw"], clauses, [(w["kind"], w["start"], w["end"]) for w in c["inw"]], [(w["kind"], w["start"], w["end"]) for w in c["outw"]]))
+        run.coverage["aggregator_sequences"] = nagg
+        run.coverage["spec_drift"] = ndrift + len(adrift)
+        vlib.log("[rp] %d wound sequences x limits through the real AggregateWounds, drift %d" % (nagg, len(adrift)))
+
         # (b) tree-level damage
         n = 240 if tier == "quick" else 5000
         total = wounds = 0
@@ -93,7 +114,7 @@ def run(tier):
         run.coverage["damaged_trees"] = total
         run.coverage["real_wounds_checked"] = wounds
         run.coverage["damage_kinds_applied"] = kinds
-        run.coverage["traces_validated_against_impl"] = upairs + total
+        run.coverage["traces_validated_against_impl"] = upairs + total + nagg
         vlib.log("[tv] %d damaged trees, %d wounds, damage kinds %s" % (total, wounds, sorted(kinds)))
         return run.finish()
     finally:
